@@ -394,4 +394,242 @@ theorem c08_out_le (P : Nat) (d : Dec) (p : Pkt) (f : Bytes) (hi : Inv P d) (hp 
       have := hs.frag_lt; have := hs.tables_n; have := hs.tables_le
       omega
 
+/-! ## C03 / C07 — the image comes back, from ANY decoder state -/
+
+theorem decode_hdr_ok (d d' : Dec) (j : Jpeg) (off : Nat) (body : Bytes) (pt : UInt8) (sq : UInt16)
+    (ts ssrc : UInt32) (m : Bool)
+    (ht : j.typ.toNat ≤ CodecMisc.mjpegMaxType) (ho : off < 2 ^ 24)
+    (hw : j.width % 8 = 0 ∧ j.width / 8 < 256) (hh : j.height % 8 = 0 ∧ j.height / 8 < 256)
+    (hs : store d 255 off { typ := j.typ, width := j.width, height := j.height } body = .ok d') :
+    decode d { pt := pt, seq := sq, ts := ts, ssrc := ssrc, marker := m, payload := jhBytes j off ++ body }
+      = finish d' m := by
+  have h1 : off / 65536 % 256 * 65536 + off / 256 % 256 * 256 + off % 256 = off := by omega
+  have h2 : j.width / 8 % 256 * 8 = j.width := by omega
+  have h3 : j.height / 8 % 256 * 8 = j.height := by omega
+  have hn : ¬ j.typ.toNat > CodecMisc.mjpegMaxType := by omega
+  have hl : ¬ (body.length + 1 + 1 + 1 + 1 + 1 + 1 + 1 + 1 < 8) := by omega
+  simp [decode, jhBytes, h1, h2, h3, hn, hl, hs]
+
+/-- the quantisation table header the encoder writes is read back exactly -/
+theorem qtParse_qtBytes (ts : List Bytes) (rest : Bytes) (hn : ts.length = 1 ∨ ts.length = 2)
+    (ht : ∀ t ∈ ts, t.length = 64) :
+    qtParse (qtBytes ts ++ rest) = some (ts, 4 + 64 * ts.length) ∧
+    (qtBytes ts ++ rest).drop (4 + 64 * ts.length) = rest := by
+  rcases hn with hn | hn
+  · match ts, hn with
+    | [t], _ =>
+      have h1 : t.length = 64 := ht t (by simp)
+      refine ⟨?_, ?_⟩
+      · simp [qtParse, qtBytes, h1, List.take_left' h1]
+      · simp [qtBytes, List.drop_left' h1]
+  · match ts, hn with
+    | [t, u], _ =>
+      have h1 : t.length = 64 := ht t (by simp)
+      have h2 : u.length = 64 := ht u (by simp)
+      have e1 : List.take 64 (t ++ (u ++ rest)) = t := List.take_left' h1
+      have e2 : List.drop 64 (t ++ (u ++ rest)) = u ++ rest := List.drop_left' h1
+      refine ⟨?_, ?_⟩
+      · have e3 : List.drop 68 (0 :: 0 :: UInt8.ofNat (128 / 256) :: UInt8.ofNat 128 :: (t ++ (u ++ rest))) = u ++ rest := by
+          show List.drop 64 (t ++ (u ++ rest)) = u ++ rest
+          exact e2
+        simp [qtParse, qtBytes, h1, h2, e1]
+        omega
+      · simp [qtBytes]
+        rw [show (128 : Nat) = 64 + 64 from rfl, ← List.drop_drop, e2, List.drop_left' h2]
+
+theorem joinFragments_exact (fs : List Bytes) : joinFragments fs (totalLen fs) = fs.flatten := by
+  have h := flatten_length fs
+  simp only [joinFragments]
+  rw [← h, List.take_length, Nat.sub_self]
+  simp
+
+/-- the continuation packets: the decoder holds `off` bytes of the image, `rest` is still to come -/
+theorem run_cont (c : EncCfg) (j : Jpeg) (hmax : 8 < c.max)
+    (ht : j.typ.toNat ≤ CodecMisc.mjpegMaxType)
+    (hw : j.width % 8 = 0 ∧ j.width / 8 < 256) (hh : j.height % 8 = 0 ∧ j.height / 8 < 256)
+    (fuel : Nat) (off : Nat) (sq : UInt16) (rest : Bytes) (d : Dec) (ps : List Pkt)
+    (hd : d.fragSize = off) (hfe : d.fragSize = totalLen d.fragments)
+    (hhdr : d.hdr = some { typ := j.typ, width := j.width, height := j.height })
+    (hoff : 0 < off) (hlim : off + rest.length ≤ 2 ^ 24) (hne : rest ≠ []) (h2 : 2 ≤ off + rest.length)
+    (hem : emit c j fuel false off sq rest = some ps) :
+    ∃ d', runDec d ps = (d', List.replicate (ps.length - 1) .more ++
+        [.ok (buildJpeg { typ := j.typ, width := j.width, height := j.height } d.tables (d.fragments.flatten ++ rest))])
+      ∧ d'.fragments = [] ∧ d'.fragSize = 0 := by
+  induction fuel generalizing off sq rest d ps with
+  | zero => simp [emit] at hem
+  | succ fuel ih =>
+    rw [emit_succ] at hem
+    simp only [Bool.false_eq_true, if_false, List.append_nil, jhBytes_length] at hem
+    have hfit : ¬ c.max < 8 := by omega
+    rw [if_neg hfit] at hem
+    have hrl : 0 < rest.length := List.length_pos_iff.mpr hne
+    generalize hrem : min (c.max - 8) rest.length = rem at hem
+    have hrem1 : 1 ≤ rem := by omega
+    have hrem2 : rem ≤ rest.length := by omega
+    have htl : (rest.take rem).length = rem := by simp [List.length_take]; omega
+    -- the decoder's step
+    have hstore : store d 255 off { typ := j.typ, width := j.width, height := j.height } (rest.take rem)
+        = .ok { d with fragSize := d.fragSize + (rest.take rem).length, fragments := d.fragments ++ [rest.take rem] } := by
+      have h0 : ¬ off = 0 := by omega
+      have h1 : ¬ off ≠ d.fragSize := by simp [hd]
+      simp only [store, h0, if_false, h1]
+    by_cases hrest : (rest.drop rem).isEmpty = true
+    · rw [if_pos hrest] at hem
+      simp only [Option.some.injEq] at hem; subst hem
+      have hall : rest.take rem = rest := by
+        have : rest.drop rem = [] := by simpa using hrest
+        have hl := congrArg List.length this
+        simp only [List.length_drop, List.length_nil] at hl
+        exact List.take_of_length_le (by omega)
+      refine ⟨Dec.resetFragments { d with fragSize := d.fragSize + (rest.take rem).length, fragments := d.fragments ++ [rest.take rem] }, ?_, ?_⟩
+      · simp only [runDec, List.length_cons, List.length_nil, Nat.sub_self, List.replicate_zero,
+          List.nil_append]
+        rw [decode_hdr_ok d _ j off (rest.take rem) _ _ _ _ _ ht (by omega) hw hh hstore]
+        have hsz : ¬ (d.fragSize + (rest.take rem).length < 2) := by rw [hall, hd]; omega
+        have hjoin : joinFragments (d.fragments ++ [rest.take rem]) (d.fragSize + (rest.take rem).length)
+            = d.fragments.flatten ++ rest := by
+          have : d.fragSize + (rest.take rem).length = totalLen (d.fragments ++ [rest.take rem]) := by
+            simp [hfe]
+          rw [this, joinFragments_exact, hall]; simp
+        simp only [finish, hrest, Bool.not_true, Bool.false_eq_true, if_false, hsz, hhdr, hjoin]
+      · simp [finish, Dec.resetFragments]
+    · rw [if_neg hrest] at hem
+      cases hr : emit c j fuel false (off + rem) (sq + 1) (rest.drop rem) with
+      | none => simp [hr] at hem
+      | some qs =>
+        simp only [hr, Option.map_some, Option.some.injEq] at hem
+        subst hem
+        have hne' : rest.drop rem ≠ [] := by simpa using hrest
+        have hdl : 0 < (rest.drop rem).length := List.length_pos_iff.mpr hne'
+        simp only [List.length_drop] at hdl
+        have hq : qs ≠ [] := by
+          obtain ⟨_, _, h3⟩ := emit_props _ _ _ _ _ _ _ _ hr
+          intro e; rw [e] at h3; simp at h3
+        obtain ⟨d', hrun, hclean⟩ := ih (off + rem) (sq + 1) (rest.drop rem)
+          { d with fragSize := d.fragSize + (rest.take rem).length, fragments := d.fragments ++ [rest.take rem] } qs
+          (by simp [hd, htl]) (by simp [hfe]) hhdr (by omega)
+          (by simp only [List.length_drop]; omega) hne' (by simp only [List.length_drop]; omega) hr
+        refine ⟨d', ?_, hclean⟩
+        simp only [runDec]
+        rw [decode_hdr_ok d _ j off (rest.take rem) _ _ _ _ _ ht (by omega) hw hh hstore]
+        have hm : (rest.drop rem).isEmpty = false := by simpa using hrest
+        simp only [finish, hm, Bool.not_false, if_true, hrun]
+        obtain ⟨k, hk⟩ := Nat.exists_eq_succ_of_ne_zero (fun e => hq (List.eq_nil_of_length_eq_zero e))
+        simp [hk, List.replicate_succ, List.append_assoc]
+
+/-- the image the decoder rebuilds for `j`: same type, dimensions, quantisation tables and
+entropy-coded data (with the end-of-image marker appended if `j.data` does not end with one) -/
+def rebuild (j : Jpeg) : Bytes :=
+  buildJpeg { typ := j.typ, width := j.width, height := j.height } j.tables j.data
+
+/-- **C03 round trip and C07 flush in one**: for every valid limit, every valid image and EVERY
+decoder state `d` (clean or left behind by any loss / duplication / reordering): "more packets
+needed" on all packets but the last, the rebuilt image at the last one, and no fragment left. -/
+theorem c03_roundtrip (e : Enc) (j : Jpeg) (d : Dec) (ps : List Pkt)
+    (hc : ValidCfg e.cfg) (hf : ValidFrame e.cfg j) (hps : (encode e j).2 = some ps) :
+    ∃ d', runDec d ps = (d', List.replicate (ps.length - 1) .more ++ [.ok (rebuild j)])
+      ∧ d'.fragments = [] ∧ d'.fragSize = 0 := by
+  obtain ⟨ht, hw1, hw2, hh1, hh2, htn, htl, hd2, hdmax, hfit⟩ := hf
+  have hem := (encode_some e j ps hps).1
+  have hmax : 8 < e.cfg.max := by unfold ValidCfg at hc; omega
+  rw [emit_succ] at hem
+  simp only [if_true] at hem
+  have hhl : (jhBytes j 0 ++ qtBytes j.tables).length = 12 + 64 * j.tables.length := by
+    simp [totalLen_tables j.tables htl]; omega
+  rw [hhl] at hem
+  have hnf : ¬ e.cfg.max < 12 + 64 * j.tables.length := by omega
+  rw [if_neg hnf] at hem
+  generalize hrem : min (e.cfg.max - (12 + 64 * j.tables.length)) j.data.length = rem at hem
+  have hrem1 : 1 ≤ rem := by omega
+  have hrem2 : rem ≤ j.data.length := by omega
+  have htake : (j.data.take rem).length = rem := by simp [List.length_take]; omega
+  obtain ⟨hqp, hqd⟩ := qtParse_qtBytes j.tables (j.data.take rem) htn htl
+  let d1 : Dec := { firstRecv := true, fragments := [j.data.take rem], fragSize := rem,
+                    hdr := some { typ := j.typ, width := j.width, height := j.height }, tables := j.tables }
+  have hstore : store d 255 0 { typ := j.typ, width := j.width, height := j.height }
+      (qtBytes j.tables ++ j.data.take rem) = .ok d1 := by
+    simp [store, hqp, hqd, Dec.resetFragments, d1, htake]
+  have hdec : ∀ m, decode d { pt := payloadType, seq := e.seq, ssrc := e.cfg.ssrc, marker := m, payload := jhBytes j 0 ++ qtBytes j.tables ++ j.data.take rem } = finish d1 m := by
+    intro m
+    rw [List.append_assoc]
+    exact decode_hdr_ok d d1 j 0 _ _ _ _ _ m ht (by omega) ⟨hw1, hw2⟩ ⟨hh1, hh2⟩ hstore
+  by_cases hrest : (j.data.drop rem).isEmpty = true
+  · rw [if_pos hrest] at hem
+    simp only [Option.some.injEq] at hem; subst hem
+    have hall : j.data.take rem = j.data := by
+      have : j.data.drop rem = [] := by simpa using hrest
+      have hl := congrArg List.length this
+      simp only [List.length_drop, List.length_nil] at hl
+      exact List.take_of_length_le (by omega)
+    refine ⟨d1.resetFragments, ?_, rfl, rfl⟩
+    simp only [runDec, List.length_cons, List.length_nil, Nat.sub_self, List.replicate_zero, List.nil_append]
+    rw [hdec]
+    have hsz : ¬ (d1.fragSize < 2) := by
+      simp only [d1]; rw [← htake, hall]; omega
+    have hjoin : joinFragments d1.fragments d1.fragSize = j.data := by
+      have : d1.fragSize = totalLen d1.fragments := by simp [d1, htake]
+      rw [this, joinFragments_exact]; simp [d1, hall]
+    simp only [finish, hrest, Bool.not_true, Bool.false_eq_true, if_false, hsz, hjoin]
+    rfl
+  · rw [if_neg hrest, Nat.zero_add] at hem
+    cases hr : emit e.cfg j (j.data.length + 1) false rem (e.seq + 1) (j.data.drop rem) with
+    | none => simp [hr] at hem
+    | some qs =>
+      simp only [hr, Option.map_some, Option.some.injEq] at hem
+      subst hem
+      have hne' : j.data.drop rem ≠ [] := by simpa using hrest
+      have hq : qs ≠ [] := by
+        obtain ⟨_, _, h3⟩ := emit_props _ _ _ _ _ _ _ _ hr
+        intro e; rw [e] at h3; simp at h3
+      obtain ⟨d', hrun, hclean⟩ := run_cont e.cfg j hmax ht ⟨hw1, hw2⟩ ⟨hh1, hh2⟩ _ rem (e.seq + 1)
+        (j.data.drop rem) d1 qs (by simp [d1]) (by simp [d1, htake]) rfl (by omega)
+        (by simp only [List.length_drop]; omega) hne' (by simp only [List.length_drop]; omega) hr
+      refine ⟨d', ?_, hclean⟩
+      simp only [runDec]
+      rw [hdec]
+      have hm : (j.data.drop rem).isEmpty = false := by simpa using hrest
+      simp only [finish, hm, Bool.not_false, if_true, hrun]
+      obtain ⟨k, hk⟩ := Nat.exists_eq_succ_of_ne_zero (fun e => hq (List.eq_nil_of_length_eq_zero e))
+      simp [hk, List.replicate_succ, d1, rebuild]
+
+theorem runDec_append (d : Dec) (ps qs : List Pkt) :
+    runDec d (ps ++ qs) = ((runDec (runDec d ps).1 qs).1, (runDec d ps).2 ++ (runDec (runDec d ps).1 qs).2) := by
+  induction ps generalizing d with
+  | nil => simp [runDec]
+  | cons p ps ih => simp [runDec, ih]
+
+/-- **C07 flush**: from ANY state one intact image leaves no fragment behind. -/
+theorem c07_flush (e : Enc) (j : Jpeg) (d : Dec) (ps : List Pkt)
+    (hc : ValidCfg e.cfg) (hf : ValidFrame e.cfg j) (hps : (encode e j).2 = some ps) :
+    (runDec d ps).1.fragments = [] ∧ (runDec d ps).1.fragSize = 0 := by
+  obtain ⟨d', h, h1, h2⟩ := c03_roundtrip e j d ps hc hf hps
+  rw [h]; exact ⟨h1, h2⟩
+
+/-- **C07 resynchronisation**: after ANY packet history `h`, an intact image is returned exactly
+once, at its last packet — the damage never outlives the first packet of the next image (whose
+zero fragment offset resets the decoder). -/
+theorem c07_resync (h : List Pkt) (e : Enc) (j : Jpeg) (ps : List Pkt)
+    (hc : ValidCfg e.cfg) (hf : ValidFrame e.cfg j) (hps : (encode e j).2 = some ps) :
+    (runDec (runDec {} h).1 ps).2 = List.replicate (ps.length - 1) .more ++ [.ok (rebuild j)] := by
+  obtain ⟨d', hr, _, _⟩ := c03_roundtrip e j (runDec {} h).1 ps hc hf hps
+  rw [hr]
+
+/-! ## non-vacuity -/
+
+def exTable (b : UInt8) : Bytes := List.replicate 64 b
+/-- 16x8 image, two tables, 30 bytes of data at limit 150: the first packet takes 10 bytes (after
+140 bytes of headers), the following ones 142 → 2 packets, across a sequence-number wrap -/
+def exJpeg : Jpeg := { typ := 1, width := 16, height := 8, tables := [exTable 3, exTable 5],
+                       data := List.replicate 28 0x5a ++ [0xFF, 0xD9] }
+def exEnc : Enc := { cfg := { pt := 26, ssrc := 7, max := 150 }, seq := 65535 }
+
+set_option maxRecDepth 8000 in
+example : ValidCfg exEnc.cfg ∧ ValidFrame exEnc.cfg exJpeg := by decide
+set_option maxRecDepth 8000 in
+example : ((encode exEnc exJpeg).2.map fun ps => ps.map fun p => (p.seq, p.marker, p.payload.length))
+    = some [(65535, false, 150), (0, true, 28)] := by decide
+/-- a dirty state satisfies the invariant -/
+example : Inv 1500 { firstRecv := true, fragments := [[1, 2], [3]], fragSize := 3, hdr := some { typ := 0, width := 8, height := 8 }, tables := [exTable 1] } :=
+  ⟨by decide, by decide, by decide, by decide, by decide⟩
+
 end Rtsp.Codec.Mjpeg
